@@ -398,7 +398,7 @@ fn roundtrip_model(rep: &mut Report, name: &str, xml: &str, fsm: &Fsm, variant: 
             return None;
         }
     };
-    match read_model(&img.bytes[..]) {
+    match crate::serial::read_model_budgeted(img.bytes.clone(), None) {
         ReadOutcome::Ok(f2) => {
             let got = dump(&f2, &CanonOpts { for_roundtrip: true });
             if let Some(d) = diff(&want, &got, "model") {
@@ -421,7 +421,7 @@ fn roundtrip_model(rep: &mut Report, name: &str, xml: &str, fsm: &Fsm, variant: 
                     &format!("the process died while the complete image of model {} ({}) was read through BufReader({})", name, variant, cap),
                     &json!({"model": name, "variant": variant, "xml": xml, "stream": format!("BufReader({})", cap)}),
                 );
-                let outcome = read_model(std::io::BufReader::with_capacity(*cap, &img.bytes[..]));
+                let outcome = crate::serial::read_model_budgeted(img.bytes.clone(), Some(*cap));
                 judge_stream_read(rep, outcome, &want, name, variant, xml, &format!("BufReader({})", cap));
             }
             if variant == "plain" && img.bytes.len() > 600 {
